@@ -227,8 +227,8 @@ def df_rows(d, idx):
 def d3(chk, prog):
     chk.clause("D3", "conservation: squash_region closed forms on a symbolic group")
     fi = prog.fn(f"{SF}.squash_region")
-    tb = Table(chk, "conservation", "squash_region on 3 symbolic rows (weights positive / all zero; with / without probes, cn1)", fi.loc(), fi.qn)
-    for wkind, has_probes, has_cn1 in itertools.product(["positive", "zero"], [True, False], [True, False]):
+    tb = Table(chk, "conservation", "squash_region on 3 symbolic rows (weights positive / all zero / one zero; with / without probes, cn1)", fi.loc(), fi.qn)
+    for wkind, has_probes, has_cn1 in itertools.product(["positive", "zero", "mixed"], [True, False], [True, False]):
         W.reset()
         n = 3
         s = [Term.sym(f"s{i}") for i in range(n)]
@@ -237,10 +237,12 @@ def d3(chk, prog):
         d = [Term.sym(f"d{i}") for i in range(n)]
         b = [Term.sym(f"b{i}") for i in range(n)]
         p = [Term.sym(f"p{i}", 0, INF, True) for i in range(n)]
-        if wkind == "positive":
+        if wkind in ("positive", "mixed"):
             w = [Term.sym(f"w{i}", 0, INF, positive=True) for i in range(n)]
             for x in w:
                 x.lo = 1e-9
+            if wkind == "mixed":
+                w[1] = 0                    # one member of the run carries no weight: the others still weight the averages
         else:
             w = [0, 0, 0]
         cols = {"chromosome": Vec(["chr1"] * n), "start": Vec(s), "end": Vec(e), "gene": Vec(["A", "B", "A"]), "log2": Vec(v), "weight": Vec(w), "depth": Vec(d), "baf": Vec(b),
@@ -275,7 +277,7 @@ def d3(chk, prog):
             return r
 
         def avg(xs):
-            if wkind == "positive":
+            if wkind != "zero":
                 return t_div(tot([t_mul(T(x), T(ww)) for x, ww in zip(xs, w)]), tot(w))
             return t_div(tot(xs), Term.const(n))
         ok = same(o.get("start"), s[0]) and same(o.get("end"), e[2]) and o.get("chromosome") == ["chr1"] and o.get("gene") == "A,B"
@@ -283,16 +285,12 @@ def d3(chk, prog):
         ok = ok and (same(o.get("probes"), tot(p)) if has_probes else o.get("probes") == 3)
         def med(prefix):
             vals = ",".join(f"{prefix}{i}" for i in range(n))
-            return Term.sym(f"WMEDIAN[{vals}|" + ",".join(repr(x) for x in w) + "]") if wkind == "positive" else Term.sym(f"MEDIAN[{vals}]")
+            return Term.sym(f"WMEDIAN[{vals}|" + ",".join(repr(x) for x in w) + "]") if wkind != "zero" else Term.sym(f"MEDIAN[{vals}]")
         ok = ok and same(o.get("cn"), med("c"))
         if has_cn1:
             ok = ok and same(o.get("cn1"), med("m")) and same(o.get("cn2"), t_sub(med("c"), med("m")))
         tb.cell(ok, dict(weights=wkind, probes_column=has_probes, cn1=has_cn1, got={k: repr(x)[:80] for k, x in o.items()}))
     tb.done("a merged segment does not conserve (first start, last end, summed probes / weight, weight-averaged log2 / depth / baf, median cn)")
-    # cn2 = cn - cn1 (structural: values are opaque summaries above)
-    st = [n for n in own_nodes(fi.node) if isinstance(n, ast.Assign) and norm(n.targets[0]) == "out['cn2']"]
-    ok = len(st) == 1 and norm(st[0].value) in ("out['cn'] - out['cn1']",)
-    chk.decide(ok, "conservation", "merged cn2 = cn - cn1", f"{fi.qn}::cn2", fi.loc(), f"cn2 of a merged segment must be cn - cn1; found {[norm(x.value) for x in st]}")
 
 
 def d4(chk, prog):
@@ -331,50 +329,50 @@ def d4(chk, prog):
 
 
 def d5(chk, prog):
-    chk.clause("D5", "the level vector handed to squash_by_groups carries the segments' own index")
-    chk.rule("level-index", "squash_by_groups aligns `levels` with the table by index label (change_levels += chrom_col; assign(_group=...)): the argument must be a "
-             "column of that table or pd.Series(..., index=<table>.data.index); pd.Series(<array>) has a fresh 0..n-1 index")
-    res = Resolver(prog)
-    target = prog.fn(f"{SF}.squash_by_groups")
-    sites = flow.callers(prog, res, target)
-    chk.floor("squash_by_groups call sites", len(sites), 5)
-    for cfi, call in sites:
-        tbl = flow.arg_of(call, target, "cnarr")
-        lv = flow.arg_of(call, target, "levels")
-        kind, why = _level_kind(cfi, tbl, lv)
-        chk.decide(kind != "fresh", "level-index", f"{cfi.name}: squash_by_groups({norm(tbl)}, {norm(lv)[:50]}) -- {kind}", f"{cfi.qn}::squash_by_groups levels", cfi.loc(call),
-                   f"`{norm(lv)}` has a fresh 0..n-1 index while `{norm(tbl)}` keeps the caller's index: on a filtered / subset table the levels are aligned onto the wrong "
-                   "segments and unlike segments are merged (e.g. segfilters.ci(segments[segments.start >= 10]))", witness=dict(why=why))
-        if kind == "unknown":
-            raise AnalysisError(f"C14-D5: cannot classify the level vector `{norm(lv)}` at {cfi.loc(call)}")
+    chk.clause("D5", "filters end to end on literal tables whose index is not 0..n-1: each filter merges exactly the runs of its own level (levels stay attached to their rows)")
+    tb = Table(chk, "level-index", "ci / sem / ampdel / cn -> squash_by_groups on literal 6-row tables with permuted index labels (squash_region summarised)", "cnvlib/segfilters.py", f"{SF}::filters")
+    n = 6
+    chroms = ["chr1"] * 4 + ["chr2"] * 2
+    labels = [7, 3, 11, 2, 5, 13]
+    cases = {
+        # level per row: +1, +1, 0, -1 | -1, -1   (runs: [0,1] [2] [3] | [4,5])
+        "ci": dict(cols=dict(ci_lo=[1, 2, -1, -3, -3, -4], ci_hi=[3, 4, 1, -1, -1, -2]), levels=[1, 1, 0, -1, -1, -1]),
+        "sem": dict(cols=dict(log2=[5, 6, 1, -5, -6, -7], sem=[1, 1, 1, 1, 1, 1]), levels=[1, 1, 0, -1, -1, -1]),
+        # cn: 0, 0, 3, 3 | 5, 7: ampdel levels -1 -1 0 0 | 1 1 ; cn levels: the value itself
+        "ampdel": dict(cols=dict(cn=[0, 0, 3, 3, 5, 7]), levels=[-1, -1, 0, 0, 1, 1]),
+        "cn": dict(cols=dict(cn=[0, 0, 3, 3, 5, 7]), levels=[0, 0, 3, 3, 5, 7]),
+    }
+    for name, case in cases.items():
+        W.reset()
+        fi = prog.fn(f"{SF}.{name}")
+        rows = []
+        for i in range(n):
+            r = dict(chromosome=chroms[i], start=10 * i, end=10 * i + 10, gene=f"g{i}", log2=Fr(i, 4), probes=1, weight=1, rowid=i)
+            r.update({k: v[i] for k, v in case["cols"].items()})
+            rows.append(r)
+        g = make_ga("CopyNumArray", rows, {"sample_id": "S"}, index="any", exact=True, labels=labels)
+        model = Model()
 
-
-def _level_kind(fi, tbl, lv):
-    t = norm(tbl)
-    if isinstance(lv, ast.Subscript) and norm(lv.value) == t:
-        return "column of the table", ""
-    if isinstance(lv, ast.Call) and norm(lv.func) == "pd.Series":
-        idx = [k for k in lv.keywords if k.arg == "index"]
-        if idx and norm(idx[0].value) in (f"{t}.data.index", f"{t}.index"):
-            return "Series on the table's index", ""
-        if not idx and lv.args and isinstance(lv.args[0], ast.Subscript) and norm(lv.args[0].value) == t:
-            return "column of the table", ""
-        return "fresh", "pd.Series(...) without index="
-    if isinstance(lv, ast.Call) and isinstance(lv.func, ast.Attribute) and lv.func.attr == "as_series" and isinstance(lv.func.value, ast.Name):
-        # GenomicArray.as_series builds the Series on the receiver's index; the table must be that array or derived from it
-        recv = lv.func.value.id
-        if norm(tbl) == recv:
-            return "Series on the table's index (as_series)", ""
-        if isinstance(tbl, ast.Name):
-            vals = flow.reaching_values(fi, tbl.id, tbl)
-            if vals and all(not isinstance(v, str) and recv in {x.id for x in ast.walk(v) if isinstance(x, ast.Name)} for v in vals):
-                return "Series on the index of the array the table was derived from (as_series)", ""
-        return "unknown", ""
-    if isinstance(lv, ast.Name):
-        vals = flow.reaching_values(fi, lv.id, lv)
-        kinds = {_level_kind(fi, tbl, v)[0] if not isinstance(v, str) else "unknown" for v in vals}
-        return (kinds.pop() if len(kinds) == 1 else "unknown"), ""
-    return "unknown", ""
+        def squash_region(it, sub):
+            cols = {"chromosome": Vec([sub.cols["chromosome"].v[0]]), "rows": Vec([tuple(sub.cols["rowid"].v)])}
+            if "cn" in sub.cols:
+                cols["cn"] = Vec([sub.cols["cn"].v[0]])
+            d = DF(cols, 1)
+            d.exact = True
+            return d
+        model.prims[f"{SF}.squash_region"] = squash_region
+        it = Interp(prog, model)
+        out = tb.guard(lambda: it.call(Closure(fi.node, {}, fi.mod, fi.qn), [g], {}), name)
+        if out is None:
+            continue
+        lv = case["levels"]
+        want = want_groups(chroms, lv)
+        if name == "ampdel":
+            want = [grp for grp in want if case["cols"]["cn"][grp[0]] == 0 or case["cols"]["cn"][grp[0]] >= 5]
+        data = out.data if isinstance(out, GA) else out
+        got = [list(x) for x in data.cols["rows"].v] if isinstance(data, DF) and "rows" in data.cols else repr(out)[:80]
+        tb.cell(got == want, dict(filter=name, index_labels=labels, levels=lv, got=got, want=want))
+    tb.done("a filter merges rows that are not a run of its own level (e.g. levels re-attached by position while the table keeps other index labels)")
 
 
 def run(chk):
@@ -400,6 +398,9 @@ MUTANTS = [
     dict(name="cn filter groups by log2", file=_F, old='    return squash_by_groups(segarr, segarr["cn"])', new='    return squash_by_groups(segarr, segarr["log2"].round())'),
     dict(name="seeded C14c: nothing-to-merge shortcut by the last run index", file=_F, old="    assert change_levels.index.is_unique\n", new="    assert change_levels.index.is_unique\n    if len(levels) and change_levels.iat[-1] == len(levels) - 1:\n        return cnarr\n"),
     dict(name="twin: chromosome ordinal renamed and added out of place", expect="silent", file=_F, old="        change_levels += chrom_col\n", new="        chrom_ordinal = chrom_col\n        change_levels = change_levels + chrom_ordinal\n"),
+    dict(name="seeded C14f: weighted summaries only when every member has weight", file=_F, old='    if region_weight > 0:\n        out["log2"] = np.average', new='    if (cnarr["weight"] > 0).all():\n        out["log2"] = np.average'),
+    dict(name="seeded C14e: ci hands squash_by_groups a bare array, re-wrapped without the index", edits=[(_F, '    levels[segarr["ci_hi"].values < 0] = -1\n    return squash_by_groups(segarr, pd.Series(levels, index=segarr.data.index))', '    levels[segarr["ci_hi"].values < 0] = -1\n    return squash_by_groups(segarr, levels)'), (_F, "    # Enumerate runs of identical values\n", "    if not isinstance(levels, pd.Series):\n        levels = pd.Series(levels)\n")]),
+    dict(name="twin: bare level arrays wrapped on the table's own index inside squash_by_groups", expect="silent", edits=[(_F, '    levels[segarr["ci_hi"].values < 0] = -1\n    return squash_by_groups(segarr, pd.Series(levels, index=segarr.data.index))', '    levels[segarr["ci_hi"].values < 0] = -1\n    return squash_by_groups(segarr, levels)'), (_F, "    # Enumerate runs of identical values\n", "    if not isinstance(levels, pd.Series):\n        levels = pd.Series(levels, index=cnarr.data.index)\n")]),
     dict(name="chromosome ordinal dropped", file=_F, old="        change_levels += chrom_col\n", new=""),
     dict(name="allele-specific key dropped", file=_F, old='        groupkey.extend(["_g1", "_g2"])\n', new=""),
     dict(name="enumerate_changes without abs", file=_F, old="    return levels.diff().fillna(0).abs().cumsum().astype(int)", new="    return levels.diff().fillna(0).cumsum().astype(int)"),
